@@ -115,13 +115,14 @@ def scanInit : Scan R := { pivmax := -(1 : R), pivptr := 0, oldPtr := none, diag
 def scan (inp : PivIn K R) : Scan R := (List.range inp.cands.length).foldl (scanStep inp) scanInit
 
 /-- the policy of l.188-227 once the column maximum is nonzero: reuse of the remembered pivot
-(`old_pivptr` starts at position 0), else diagonal preference, else the maximum.  Returns the chosen
-position and the new `usepr`. -/
+(only when the scan found it among the eligible candidates: `old_pivptr` starts at SLU_EMPTY and
+`usepr` is cleared after the scan when it is still empty), else diagonal preference, else the
+maximum.  Returns the chosen position and the new `usepr`. -/
 def choosePtr (inp : PivIn K R) (thr : R → R) (ds : R) (s : Scan R) (pivmax : R) : Nat × Bool :=
   let thresh := thr pivmax
   let tm (k : Nat) : R := testMag inp.milu inp.dropSum ds (inp.cands[k]!).val
   let op := s.oldPtr.getD 0
-  if inp.usepr && !(tm op == 0) && decide (tm op ≥ thresh) then (op, true) else
+  if inp.usepr && s.oldPtr.isSome && !(tm op == 0) && decide (tm op ≥ thresh) then (op, true) else
   match s.diag with
   | some d => if !(tm d == 0) && decide (tm d ≥ thresh) then (d, false) else (s.pivptr, false)
   | none => (s.pivptr, false)
